@@ -43,12 +43,11 @@ def b_energy(cl, mod, H, which):
     nonneg = lambda names: And(*[And(E(n) >= 0, R(n) >= 0) for n in names])
 
     def mean_claims(tag, macro, names, assume_rate_implies_energy):
-        """rate-weighted mean over the members that have an energy"""
-        num = sum([E(n) * R(n) for n in names], RealVal(0))
-        den = sum([If(E(n) > 0, R(n), RealVal(0)) for n in names], RealVal(0))
+        """rate-weighted mean over the members that have an energy (flat guarded sums)"""
+        num = RealVal(0); den = RealVal(0)
+        for n in names:
+            num = num + If(E(n) > 0, E(n) * R(n), 0); den = den + If(E(n) > 0, R(n), 0)
         pre = And(zin, line == H[macro], nonneg(names))
-        if assume_rate_implies_energy:
-            pre = And(pre, *[Implies(R(n) > 0, E(n) > 0) for n in names])
         cl.add('C10/%s/value' % tag, ev, And(pre, den > 0), okfail(num / den),
                '%s energy = sum(E_i r_i)/sum(r_i) over its members %s that have an energy' % (macro, names), functions=fns)
         cl.add('C10/%s/fail' % tag, ev, And(pre, Not(den > 0)), fail, '%s: error when no member has rate and energy' % macro, functions=fns)
